@@ -136,62 +136,7 @@ def run(check, ctx):
                      expected="the documented output= contract, identical in every wrapper")
     if n < 12:
         raise AnalysisError("output= idiom: only %d wrappers found" % n)
-    # ---- no retained reference to caller-owned mutable data ----------------------------------------------
-    # an attribute that outlives the call and is assigned from a parameter must go through a copy
-    COPIES = ("_copy_bytes", "bytes", "tobytes", "bytearray", "b")
-    targets = [("Crypto.Cipher._mode_gcm", "GcmMode", ("_cache", "nonce", "_key")),
-               ("Crypto.Cipher._mode_ccm", "CcmMode", ("_cache", "nonce", "_key")),
-               ("Crypto.Cipher._mode_ocb", "OcbMode", ("_cache_A", "_cache_P", "nonce")),
-               ("Crypto.Cipher._mode_eax", "EaxMode", ("nonce",)),
-               ("Crypto.Cipher._mode_siv", "SivMode", ("nonce",)),
-               ("Crypto.Protocol.KDF", "_S2V", ("_last_string", "_key")),
-               ("Crypto.Hash.CMAC", "CMAC", ("_key",)),
-               ("Crypto.Cipher._mode_cbc", "CbcMode", ("iv", "IV")),
-               ("Crypto.Cipher._mode_cfb", "CfbMode", ("iv", "IV")),
-               ("Crypto.Cipher._mode_ofb", "OfbMode", ("iv", "IV")),
-               ("Crypto.Cipher._mode_ctr", "CtrMode", ("nonce",)),
-               ("Crypto.Cipher.ChaCha20", "ChaCha20Cipher", ("nonce",))]
-    from ..pyflow import local_defs, roots
-    nst = 0
-    for modname, cls, attrs in targets:
-        mod = repo.module(modname)
-        c = repo.cls(mod, cls)
-        for f in c.body:
-            if not isinstance(f, ast.FunctionDef):
-                continue
-            ps = set(params_of(f)[1:])
-            defs = local_defs(f)
-            for n_ in walk_no_nested(f):
-                if not isinstance(n_, (ast.Assign, ast.AugAssign)):
-                    continue
-                tg = n_.targets if isinstance(n_, ast.Assign) else [n_.target]
-                for t in tg:
-                    if isinstance(t, ast.Attribute) and isinstance(t.value, ast.Name) and t.value.id == "self" \
-                            and t.attr in attrs:
-                        r = roots(n_.value, f, defs)
-                        from_param = [x for x in r if x.startswith("param:") and x[6:] in ps]
-                        if not from_param:
-                            continue
-                        nst += 1
-                        # every path from the value to the parameter passes a copy call or a slice
-                        from ..pyflow import paths_to
-                        okall = True
-                        for pn in from_param:
-                            for p in paths_to(n_.value, lambda x, pn=pn: isinstance(x, ast.Name) and x.id == pn[6:] and pn[6:] not in defs, f, defs):
-                                okp = any((isinstance(x, ast.Call) and norm(x.func).split(".")[-1] in COPIES) or
-                                          (isinstance(x, ast.Subscript) and isinstance(x.slice, ast.Slice)) or
-                                          isinstance(x, ast.BinOp)
-                                          for x in p if not isinstance(x, tuple))
-                                okall = okall and okp
-                        guarded = any(isinstance(x, ast.Call) and norm(x.func).endswith("is_writeable_buffer")
-                                      for x in walk_no_nested(f))
-                        check.ob("P4", "P4|retain|%s.%s.%s|%s" % (modname.split(".")[-1], cls, f.name, t.attr),
-                                 okall or guarded, mod.path, n_.lineno,
-                                 extracted="self.%s = %s" % (t.attr, norm(n_.value)[:70]),
-                                 expected="caller-owned (possibly mutable) data kept across calls is copied "
-                                          "(_copy_bytes / bytes / slice / concatenation) or guarded by is_writeable_buffer")
-    if nst < 12:
-        raise AnalysisError("P4 retain: only %d attribute stores from parameters found" % nst)
+    retention_rule(check, repo)
 
 
 def k12_tree_rows(check, repo, rule="SEG", lifecycle_rule=None):
@@ -338,3 +283,63 @@ def k12_tree_rows(check, repo, rule="SEG", lifecycle_rule=None):
     check.ob(rule, rule + "|k12.tree", not wrong, mod.path, fn.lineno,
              extracted="; ".join(wrong[:3]) if wrong else "%d (length, customization, partition) rows: chunks are closed at exactly 8192 bytes whatever the partition; final node and domain byte as specified" % n,
              expected="KangarooTwelve (RFC 9861 3): the result depends on M and C only, not on how M is cut into update() calls; S longer than one chunk is tree-hashed")
+
+
+def retention_rule(check, repo, targets=None, floor=12):
+    """An attribute that outlives the call and is assigned from a parameter must go through a copy."""
+    # an attribute that outlives the call and is assigned from a parameter must go through a copy
+    COPIES = ("_copy_bytes", "bytes", "tobytes", "bytearray", "b")
+    targets = targets or [("Crypto.Cipher._mode_gcm", "GcmMode", ("_cache", "nonce", "_key")),
+               ("Crypto.Cipher._mode_ccm", "CcmMode", ("_cache", "nonce", "_key")),
+               ("Crypto.Cipher._mode_ocb", "OcbMode", ("_cache_A", "_cache_P", "nonce")),
+               ("Crypto.Cipher._mode_eax", "EaxMode", ("nonce",)),
+               ("Crypto.Cipher._mode_siv", "SivMode", ("nonce",)),
+               ("Crypto.Protocol.KDF", "_S2V", ("_last_string", "_key")),
+               ("Crypto.Hash.CMAC", "CMAC", ("_key",)),
+               ("Crypto.Cipher._mode_cbc", "CbcMode", ("iv", "IV")),
+               ("Crypto.Cipher._mode_cfb", "CfbMode", ("iv", "IV")),
+               ("Crypto.Cipher._mode_ofb", "OfbMode", ("iv", "IV")),
+               ("Crypto.Cipher._mode_ctr", "CtrMode", ("nonce",)),
+               ("Crypto.Cipher.ChaCha20", "ChaCha20Cipher", ("nonce",))]
+    from ..pyflow import local_defs, roots
+    nst = 0
+    for modname, cls, attrs in targets:
+        mod = repo.module(modname)
+        c = repo.cls(mod, cls)
+        for f in c.body:
+            if not isinstance(f, ast.FunctionDef):
+                continue
+            ps = set(params_of(f)[1:])
+            defs = local_defs(f)
+            for n_ in walk_no_nested(f):
+                if not isinstance(n_, (ast.Assign, ast.AugAssign)):
+                    continue
+                tg = n_.targets if isinstance(n_, ast.Assign) else [n_.target]
+                for t in tg:
+                    if isinstance(t, ast.Attribute) and isinstance(t.value, ast.Name) and t.value.id == "self" \
+                            and t.attr in attrs:
+                        r = roots(n_.value, f, defs)
+                        from_param = [x for x in r if x.startswith("param:") and x[6:] in ps]
+                        if not from_param:
+                            continue
+                        nst += 1
+                        # every path from the value to the parameter passes a copy call or a slice
+                        from ..pyflow import paths_to
+                        okall = True
+                        for pn in from_param:
+                            for p in paths_to(n_.value, lambda x, pn=pn: isinstance(x, ast.Name) and x.id == pn[6:], f, defs):
+                                # (a slice is a copy for bytes / bytearray but a VIEW of the caller's buffer for a memoryview, which
+                                #  the methods document as an input type: it does not count as a copy)
+                                okp = any((isinstance(x, ast.Call) and norm(x.func).split(".")[-1] in COPIES) or
+                                          isinstance(x, ast.BinOp)
+                                          for x in p if not isinstance(x, tuple))
+                                okall = okall and okp
+                        guarded = any(isinstance(x, ast.Call) and norm(x.func).endswith("is_writeable_buffer")
+                                      for x in walk_no_nested(f))
+                        check.ob("P4", "P4|retain|%s.%s.%s|%s" % (modname.split(".")[-1], cls, f.name, t.attr),
+                                 okall or guarded, mod.path, n_.lineno,
+                                 extracted="self.%s = %s" % (t.attr, norm(n_.value)[:70]),
+                                 expected="caller-owned (possibly mutable) data kept across calls is copied "
+                                          "(_copy_bytes / bytes / concatenation; a slice of a memoryview is a view) or guarded by is_writeable_buffer")
+    if nst < floor:
+        raise AnalysisError("P4 retain: only %d attribute stores from parameters found" % nst)
